@@ -110,12 +110,25 @@ def check_size_bits_branches(repo):
                     raise GenError(f"{hdr}:{start}: the 32-bit branch `{other}` is not the u32 image of the proved 64-bit branch `{branches[64]}`")
 
 
-def generate(repo, cfg_inc, varargs=True):
-    # varargs=False is the degraded mode that only keeps the harness runnable: it also skips the textual rules
-    """returns (lean_math_text, lean_dispatch_text, meta) ; meta: list of dicts per translated function.
-    varargs=False leaves source/math.c out (used only to keep the harness runnable when that translation fails)"""
+def generate(repo, cfg_inc, varargs=True, errors=None):
+    """returns (lean_math_text, lean_dispatch_text, meta) ; meta: list of dicts per function.
+    varargs=False leaves source/math.c and the textual rules out.
+    errors: None = strict (the first function outside the subset raises GenError).  A list = tolerant: every problem
+    is appended to it as text and generation goes on; a function that cannot be translated (or calls one that cannot)
+    gets no Lean definition but keeps its `meta` entry, with the info derived from its *signature* alone and
+    info["untranslated"] = True, so that the C harness and the oracle still cover it.  The Lean texts returned in
+    tolerant mode with errors are incomplete and must not be written."""
+    tolerant = errors is not None
+
+    def problem(msg):
+        if not tolerant:
+            raise GenError(msg)
+        errors.append(msg)
     if varargs:
-        check_size_bits_branches(repo)
+        try:
+            check_size_bits_branches(repo)
+        except GenError as e:
+            problem(str(e))
     inc = includes(repo, cfg_inc)
     tu = tu_text(repo, VARIANTS)
     all_nodes = {}     # C prefixed name -> node
@@ -181,29 +194,56 @@ def generate(repo, cfg_inc, varargs=True):
 
     chunks = []
     meta = []
+    failed = set()
     for cn in order:
         key, ns, name, node = all_nodes[cn]
         lean_q = f"{ns}.{name}"
-        tr = cfun.FnTranslator(node, name, resolve, enums, fuel=FUEL, strict_unwritten=True)
+        tr, text, info, why = None, None, None, None
         try:
+            tr = cfun.FnTranslator(node, name, resolve, enums, fuel=FUEL, strict_unwritten=True)
+            d = set()
+            deps(node, d)
+            bad = sorted(x for x in d if canonical(x) in failed)
+            if bad:
+                raise GenError("calls " + ", ".join(bad) + ", which has no translation")
             text, info = tr.translate()
         except GenError as e:
-            raise GenError(f"{name} ({key}): {e}")
-        infos[cn] = (lean_q, info)
-        chunks.append((ns, text))
-        meta.append({"variant": key, "ns": ns, "name": name, "cname": cn, "info": info})
+            why = f"{name} ({key}): {e}"
+            problem(why)
+        if why is None:
+            infos[cn] = (lean_q, info)
+            chunks.append((ns, text))
+            meta.append({"variant": key, "ns": ns, "name": name, "cname": cn, "info": info})
+        else:
+            failed.add(cn)
+            if tr is not None:
+                # signature-derived description: enough for the C dispatch, the case generator and the oracle
+                info = {"kind": tr.kind, "params": tr.params, "ret": tr.ret, "outs": list(tr.null_tested),
+                        "abort": tr.may_abort, "untranslated": True}
+                infos[cn] = (lean_q, info)
+                meta.append({"variant": key, "ns": ns, "name": name, "cname": cn, "info": info})
 
     # floating-point min/max: own translator (gen/math_float.py)
     for key, ns, name, cn, node in float_nodes:
-        text, info = math_float.translate(node, name)
-        chunks.append((ns, text))
+        try:
+            text, info = math_float.translate(node, name)
+            chunks.append((ns, text))
+        except GenError as e:
+            problem(str(e))
+            info = math_float.signature_info(node)
+            if info is None:
+                continue
+            info["untranslated"] = True
         meta.append({"variant": key, "ns": ns, "name": name, "cname": cn, "info": info})
 
     # source/math.c (variadic checked sum): own translator, own namespace
     va_names = []
     if varargs:
-        va_text, va_names = math_varargs.generate(repo, inc, resolve)
-        chunks.append(("MathC", va_text))
+        try:
+            va_text, va_names = math_varargs.generate(repo, inc, resolve)
+            chunks.append(("MathC", va_text))
+        except GenError as e:
+            problem(str(e))
 
     body = ["import AwsVerif.Model.CSem",
             "/-! GENERATED by gen/math_gen.py from /repo's include/aws/common/{math*.inl,clock.inl} and source/math.c — do not edit. -/",
@@ -230,6 +270,8 @@ def generate(repo, cfg_inc, varargs=True):
          "def dispatch (v f : String) (a : List Nat) : Option String :=", "  match v, f, a with"]
     for m in meta:
         info = m["info"]
+        if info.get("untranslated"):
+            continue
         nargs = [p for p in info["params"] if p[1][0] != "ptr"]
         pats = ", ".join(f"a{i}" for i in range(len(nargs)))
         args = " ".join(f"(a{i} % {1 << p[1][0]})" for i, p in enumerate(nargs))
